@@ -71,9 +71,15 @@ def udhFor (ref total seq : Nat) : List Nat :=
   if ref > 0xFF then [6, ieId16, 4, ref >>> 8, ref &&& 0xFF, total, seq]
   else [5, ieId8, 3, ref, total, seq]
 
+/-- cells per segment after the UDH: `len_without_udh` (GSM: septets; UCS2: octets / 2) -/
+def udhLenOf (ref : Nat) : Nat := if ref > 0xFF then 6 else 5
+
+def udhChunkSize (gsm : Bool) (ref : Nat) : Nat :=
+  if gsm then maxSeptetSize - udhLenOf ref - 2
+  else (maxOctetSize - udhLenOf ref - 1 - ((udhLenOf ref + 1) % 2)) / 2
+
 /-- `split_sms_udh(text, encoding, csms_ref)` -/
 def splitSmsUdh (enc : Enc) (ref : Nat) (text : List Nat) : Except Exc (List (List Nat)) :=
-  let udhLen := if ref > 0xFF then 6 else 5
   match cellsOf enc text with
   | .error e => .error e
   | .ok (cells, lead, toBytes) =>
@@ -82,12 +88,10 @@ def splitSmsUdh (enc : Enc) (ref : Nat) (text : List Nat) : Except Exc (List (Li
     if octets.length ≤ single then
       (encodeUserData octets octets.length).map fun p => [p]
     else
-      let L := if useGsm enc text then maxSeptetSize - udhLen - 2
-               else (maxOctetSize - udhLen - 1 - ((udhLen + 1) % 2)) / 2
       -- header bytes appended before the split: a 16-bit reference must fit two octets
       if ref > 0xFF ∧ ref >>> 8 ≥ 256 then .error .valueError
       else
-        let parts := chunks lead L cells
+        let parts := chunks lead (udhChunkSize (useGsm enc text) ref) cells
         if parts.length ≥ 256 then .error .valueError
         else
           .ok ((List.range parts.length).zipWith
